@@ -450,19 +450,7 @@ func c16CollectAndContinue(r *an.Run, m *runModel) {
 		for _, ed := range nonNil {
 			starts = append(starts, ed.Block.Succs[ed.Succ])
 		}
-		hdr := m.loop.Loop.Header
-		region := an.Reach(starts, func(b *ssa.BasicBlock, i int) bool { return b.Succs[i] == hdr })
-		recorded, reachesHeader := true, false
-		for i, ev := range m.errsPhi.Edges {
-			pred := hdr.Preds[i]
-			if !region[pred] {
-				continue
-			}
-			reachesHeader = true
-			if ev == ssa.Value(m.errsPhi) || !derivesFrom(ev, e) {
-				recorded = false
-			}
-		}
+		recorded, reachesHeader := m.acc.everyPathRecords(starts, func(rec errRecord) bool { return rec.derivesFromErr(e) })
 		r.Check(recorded && reachesHeader, short(f)+"|recorded|"+describeErrSource(e), iff.Pos(), "when %s is non-nil the accumulator gains an error derived from it before the next file", describeErrSource(e))
 	}
 	r.Count("error edges in the file loop", n)
@@ -477,16 +465,33 @@ func c16ExitStatus(r *an.Run, m *runModel) {
 	ret := an.ReturnOf(exit)
 	good := false
 	if ret != nil {
-		if c, ok := ret.Results[0].(*ssa.Call); ok && an.IsCallTo(c, "go.uber.org/multierr.Combine") {
-			sl := an.BackSlice(c, an.SliceOpts{ThroughCalls: true, ThroughMemory: true})
-			hasRunner := false
-			for v := range sl {
-				if fa, ok := v.(*ssa.FieldAddr); ok && fieldNameOf(fa) == "errors" && strings.HasSuffix(an.ShortType(fa.X.Type()), "patchRunner") {
-					hasRunner = true
+		// what is returned is multierr.Combine (called here, or by the accumulator's own method) over the
+		// accumulated errors and the runner's errors
+		sl := sliceAcross(ret.Results[0])
+		combines, hasRunner := false, false
+		for v := range sl {
+			if c, ok := v.(*ssa.Call); ok && an.IsCallTo(c, "go.uber.org/multierr.Combine") {
+				combines = true
+			}
+			if fa, ok := v.(*ssa.FieldAddr); ok && fieldNameOf(fa) == "errors" && strings.HasSuffix(an.ShortType(fa.X.Type()), "patchRunner") {
+				hasRunner = true
+			}
+		}
+		if m.acc.obj != nil && !hasRunner {
+			// the runner's errors are added to the object before it is combined
+			for _, c := range an.Calls(f) {
+				if len(c.Common().Args) > 0 && an.Unwrap(c.Common().Args[0]) == ssa.Value(m.acc.obj) && !m.loop.Loop.Blocks[c.Block()] {
+					for _, a := range c.Common().Args[1:] {
+						for v := range an.BackSlice(a, an.SliceOpts{ThroughMemory: true}) {
+							if fa, ok := v.(*ssa.FieldAddr); ok && fieldNameOf(fa) == "errors" && strings.HasSuffix(an.ShortType(fa.X.Type()), "patchRunner") {
+								hasRunner = true
+							}
+						}
+					}
 				}
 			}
-			good = sl[m.errsPhi] && hasRunner
 		}
+		good = combines && m.acc.feeds(sl) && hasRunner
 	}
 	r.Check(good, short(f)+"|final-return", exit.Instrs[0].Pos(), "Run returns multierr.Combine of the per-file errors and the patch runner's errors")
 	rm := fn(r, mainP, "runMain")
@@ -562,30 +567,32 @@ func c16ExitStatus(r *an.Run, m *runModel) {
 func c16Messages(r *an.Run, m *runModel) {
 	r.Rule("R6-messages-name-path-and-cause")
 	f := m.run
-	hdr := m.loop.Loop.Header
 	n := 0
-	for i, ev := range m.errsPhi.Edges {
-		if ev == ssa.Value(m.errsPhi) || !m.loop.Loop.Blocks[hdr.Preds[i]] {
-			continue
-		}
-		app, ok := ev.(*ssa.Call)
-		if !ok || !an.IsCallTo(app, "builtin:append") {
-			r.Undecided(short(f)+"|errors-update", hdr.Preds[i].Instrs[0].Pos(), "the error accumulator is updated by something other than append")
-			continue
-		}
+	for _, rec := range m.acc.recs {
 		n++
-		elem := app.Call.Args[1]
-		sl := an.BackSlice(elem, an.SliceOpts{ThroughCalls: false, ThroughMemory: true})
+		at := rec.at
+		var elems []ssa.Value
+		elems = append(elems, rec.vals...)
 		var errf *ssa.Call
-		for v := range sl {
-			if c, ok := v.(*ssa.Call); ok && an.IsCallTo(c, "fmt.Errorf") {
-				errf = c
+		var all = map[ssa.Value]bool{}
+		for _, elem := range elems {
+			for v := range an.BackSlice(elem, an.SliceOpts{ThroughCalls: false, ThroughMemory: true}) {
+				all[v] = true
+				if c, ok := v.(*ssa.Call); ok && an.IsCallTo(c, "fmt.Errorf") {
+					errf = c
+				}
 			}
 		}
-		key := short(f) + "|message|" + r.P.Pos(app.Pos())
-		key = short(f) + "|message|" + errSourceOfAppend(elem)
-		if errf != nil {
-			args := an.BackSlice(errf.Call.Args[1], an.SliceOpts{ThroughMemory: true})
+		key := short(f) + "|message|" + errSourceOfRecord(rec)
+		if errf != nil || rec.formats {
+			// the arguments the message is formatted from: those of the Errorf call, or — when the record is a
+			// formatting method of the accumulator — the arguments of that call
+			args := map[ssa.Value]bool{}
+			if errf != nil {
+				args = an.BackSlice(errf.Call.Args[1], an.SliceOpts{ThroughMemory: true})
+			} else {
+				args = all
+			}
 			hasName, hasCause := false, false
 			for v := range args {
 				if v == m.filename {
@@ -595,11 +602,14 @@ func c16Messages(r *an.Run, m *runModel) {
 					hasCause = true
 				}
 			}
-			r.Check(hasName && hasCause, key, app.Pos(), "the recorded error is a fmt.Errorf whose arguments include the file name and the underlying error (name:%v cause:%v)", hasName, hasCause)
+			r.Check(hasName && hasCause, key, at.Pos(), "the recorded error is formatted (fmt.Errorf) from arguments that include the file name and the underlying error (name:%v cause:%v)", hasName, hasCause)
 			continue
 		}
 		// unwrapped: must come from a call that was given the path, or from a stream write
-		src := rootErrorCalls(elem)
+		var src []ssa.CallInstruction
+		for _, elem := range elems {
+			src = append(src, rootErrorCalls(elem)...)
+		}
 		good := len(src) > 0
 		for _, c := range src {
 			givenPath := false
@@ -615,7 +625,7 @@ func c16Messages(r *an.Run, m *runModel) {
 				good = false
 			}
 		}
-		r.Check(good, key, app.Pos(), "an error recorded unwrapped comes from a call that was given the file's path (os errors name it) or from the output stream")
+		r.Check(good, key, at.Pos(), "an error recorded unwrapped comes from a call that was given the file's path (os errors name it) or from the output stream")
 	}
 	r.Count("errors recorded in the file loop", n)
 	r.Min("errors recorded in the file loop", 4)
@@ -657,6 +667,19 @@ func c16Messages(r *an.Run, m *runModel) {
 			r.Check(hasCause && hasPat, short(ff)+"|enumeration-error", c.Pos(), "the enumeration error names the pattern and wraps the error findGoFiles just returned (pattern:%v cause:%v)", hasPat, hasCause)
 		}
 	}
+}
+
+func errSourceOfRecord(rec errRecord) string {
+	var parts []string
+	for _, v := range rec.vals {
+		if an.IsErrorType(v.Type()) || strings.HasPrefix(an.ShortType(v.Type()), "[]") {
+			parts = append(parts, errSourceOfAppend(v))
+		}
+	}
+	if len(parts) == 0 && len(rec.vals) > 0 {
+		return errSourceOfAppend(rec.vals[len(rec.vals)-1])
+	}
+	return strings.Join(parts, "+")
 }
 
 func errSourceOfAppend(v ssa.Value) string {
